@@ -50,7 +50,9 @@ func (h H) openStorageRebuild(rule string) {
 		r := fi.MustCrossAtom(c, core.MkAtom(e+".typ", "==", cfgT))
 		h.C.Check(rule+" only-config-entries", "openStorage decode into "+h.argStr(c, 0), r.OK, h.pos(c), "a non-configuration entry can be decoded as configuration: "+r.Witness)
 	}
-	isFirst := func(a core.Atom) bool { return a.Op == "==" && (a.L == "2" && strings.HasPrefix(a.R, "phi(2, ") || a.R == "2" && strings.HasPrefix(a.L, "phi(")) }
+	isFirst := func(a core.Atom) bool {
+		return a.Op == "==" && (a.L == "2" && strings.HasPrefix(a.R, "phi(2, ") || a.R == "2" && strings.HasPrefix(a.L, "phi("))
+	}
 	r1 := fi.MustCross(latestDec, isFirst)
 	r2 := fi.MustCross(committedDec, func(a core.Atom) bool { return isFirst(a.Negate()) })
 	h.C.Check(rule+" newest-is-latest", "openStorage decode order", r1.OK && r2.OK, h.pos(latestDec), "the first (newest) configuration entry found must become Latest and only a later (older) one Committed")
@@ -84,6 +86,20 @@ func (h H) openStorageRebuild(rule string) {
 		if strings.HasPrefix(v, "new:entry") {
 			e, _ := entryOf(v, "index")
 			h.gate(rule+" last-entry-position", "openStorage store lastLogIndex := "+v, s.Instr, core.MkAtom(e+".index", "==", "(*log.Log).LastIndex(local:s.log)"))
+			// the log may end before the snapshot (crash between publishing a snapshot and discarding the log it
+			// replaces): its last entry must not be taken as the node's last index then
+			reset := h.fn("log:(*Log).Reset")
+			r := fi.MustCrossOrPass(s.Instr, func(a core.Atom) bool {
+				for _, f := range snapIndexForms("local:s") {
+					for _, l := range []string{"(*log.Log).LastIndex(local:s.log)", e + ".index"} {
+						if a.Implies(core.MkAtom(l, ">=", f)) {
+							return true
+						}
+					}
+				}
+				return false
+			}, nil, func(in ssa.Instruction) bool { return h.P.IsCallTo(in, reset) })
+			h.C.Check(rule+" log-not-behind-snapshot", "openStorage store lastLogIndex := "+v, r.OK, h.pos(s.Instr), "on restart the last log entry is adopted as the node's last index even when it lies below the latest snapshot index (a crash between snapshotSink.done and clearLog leaves exactly that state): the log is then not contiguous with the snapshot and the next append trips appendEntry's assertion")
 		}
 	}
 }
